@@ -14,6 +14,8 @@
 //!   * tag_name() is Some for start / end / self-closing tokens                                sig tag-name-none
 //!   * when the input is valid UTF-8 every accessor returns Ok                                 sig accessor-fails-on-valid-utf8
 //!   * no panic (caught by the framework, debug assertions + overflow checks on)               sig panic
+//!   * raw_tag() is "" or one of the ten raw-text element names, and "" after a token that did not hit the end of the
+//!     data unless that token is a start tag                                                   sig raw-tag-context
 use redirectionio::html::{TokenType, Tokenizer};
 use rio_harness::*;
 use serde_json::{json, Value};
@@ -54,6 +56,8 @@ fn observe_with(input: &[u8], ctx: Option<&str>, cdata: bool) -> One {
     if !cdata {
         tk.allow_cdata(false);
     }
+    // what new / new_fragment made of the context tag (before the first next())
+    let ctx0 = hex(tk.raw_tag().as_bytes());
     let utf8_ok = std::str::from_utf8(input).is_ok();
     let mut toks: Vec<Value> = Vec::new();
     let mut pos = 0usize;
@@ -75,10 +79,22 @@ fn observe_with(input: &[u8], ctx: Option<&str>, cdata: bool) -> One {
             Ok(t) => t,
             Err(e) => {
                 setfail(&mut fail, format!("next() returned Err({e}) on {}", hex(input)), "next-err");
-                toks.push(json!(["ERR", pos, pos, null]));
+                toks.push(json!(["ERR", pos, pos, null, hex(tk.raw_tag().as_bytes()), tk.err().is_some()]));
                 break;
             }
         };
+        // the context the NEXT call of next() will read in, and whether this call ran into the end of the data
+        let ctx_after = hex(tk.raw_tag().as_bytes());
+        let err_after = tk.err().is_some();
+        {
+            const RAW: &[&str] = &["", "iframe", "noembed", "noframes", "noscript", "plaintext", "script", "style", "title", "textarea", "xmp"];
+            let rt = tk.raw_tag();
+            if !RAW.contains(&rt) {
+                setfail(&mut fail, format!("raw_tag() = {rt:?} is not a raw-text element name on {}", hex(input)), "raw-tag-context");
+            } else if !rt.is_empty() && rt != "plaintext" && tt != TokenType::StartTagToken && tt != TokenType::SelfClosingTagToken {
+                setfail(&mut fail, format!("raw_tag() = {rt:?} after a token that is not a start tag on {}", hex(input)), "raw-tag-context");
+            }
+        }
         let raw = tk.raw();
         let start = pos;
         let end = pos + raw.len();
@@ -143,7 +159,7 @@ fn observe_with(input: &[u8], ctx: Option<&str>, cdata: bool) -> One {
             },
             _ => Value::Null,
         };
-        toks.push(json!([kind_code(tt), start, end, payload]));
+        toks.push(json!([kind_code(tt), start, end, payload, ctx_after, err_after]));
         if tt == TokenType::ErrorToken {
             break;
         }
@@ -156,7 +172,7 @@ fn observe_with(input: &[u8], ctx: Option<&str>, cdata: bool) -> One {
         setfail(&mut fail, format!("raw spans + buffered() do not reproduce the input {}", hex(input)), "bytes-lost");
     }
     let ntok = toks.len();
-    One { obs: json!([toks, rest.len()]), fail, ntok, kinds }
+    One { obs: json!([toks, rest.len(), ctx0]), fail, ntok, kinds }
 }
 
 fn fnv(mut h: u64, s: &[u8]) -> u64 {
@@ -431,8 +447,48 @@ fn nest_doc(depth: usize) -> Vec<u8> {
     d
 }
 
+/// the names `new_fragment` accepts, then names it must not accept
+const FRAG_NAMES: &[&str] = &[
+    "iframe", "noembed", "noframes", "noscript", "plaintext", "script", "style", "title", "textarea", "xmp", "div", "", "a", "scriptx", "scrip", "titl", "titles", "textareas", "xm", "svg", "template",
+    "noscrip", "i", "s", "t", "plain text", "script ", " title", "html", "head",
+];
+
+fn case_variants(n: &str) -> Vec<String> {
+    let mut v = vec![n.to_string(), n.to_uppercase()];
+    let mut cap: Vec<char> = n.chars().collect();
+    if let Some(c) = cap.first_mut() {
+        *c = c.to_ascii_uppercase();
+    }
+    v.push(cap.into_iter().collect());
+    v.push(n.chars().enumerate().map(|(i, c)| if i % 2 == 1 { c.to_ascii_uppercase() } else { c }).collect());
+    v.dedup();
+    v
+}
+
+/// `Tokenizer::new_fragment(data, ctx)` for every raw-text context in every letter case and for non-raw-text names:
+/// the data starts inside the element's content (tag-like text, partial and wrong end tags, then the real end tag)
+fn fragment_cases(emit: &mut dyn FnMut(Value)) {
+    for n in FRAG_NAMES {
+        for (vi, ctx) in case_variants(n).iter().enumerate() {
+            let lower = n.to_lowercase();
+            let lower = lower.trim();
+            let docs = [
+                format!("x<b>y</{lower}x>z</{lower}</{} ><{lower}>w<i></{lower}><i>t", lower.to_uppercase()),
+                format!("<!--<script></script><p>--></{lower}>v<{lower}>"),
+                format!("</{lower}>"),
+                format!("a</{lower}"),
+                String::new(),
+            ];
+            for (di, d) in docs.iter().enumerate() {
+                emit(json!({"bytes": hex(d.as_bytes()), "ctx": ctx, "cdata": (vi + di) % 3 != 0, "family": "fragment"}));
+            }
+        }
+    }
+}
+
 /// the fixed boundary cases
 fn boundary_cases(emit: &mut dyn FnMut(Value)) {
+    fragment_cases(emit);
     for &n in ATTR_COUNTS {
         emit(json!({"bytes": hex(&many_attrs_doc(n, 6, n % 2 == 0)), "family": "many-attrs"}));
     }
@@ -738,8 +794,9 @@ fn gen(args: &Args, emit: &mut dyn FnMut(Value)) {
         };
         // 1 in 8: fragment context (`new_fragment`) and / or `allow_cdata(false)`
         if rng.chance(1, 8) {
-            const CTX: &[&str] = &["title", "TITLE", "textarea", "script", "Script", "style", "plaintext", "xmp", "iframe", "noembed", "noframes", "noscript", "div", "", "scriptx"];
-            let ctx = *rng.pick(CTX);
+            let name = *rng.pick(FRAG_NAMES);
+            let vs = case_variants(name);
+            let ctx = rng.pick(&vs).clone();
             let cdata = rng.chance(1, 2);
             emit(json!({"bytes": hex(&bytes), "ctx": ctx, "cdata": cdata}));
         } else {
